@@ -112,3 +112,43 @@ theorem positions_get (nl : Nat) (t : Text) (i : Nat) (h : i < t.length) :
       omega
 
 end AasVerif.Lineno
+
+namespace AasVerif.Lineno
+
+theorem isSpace_of_isLineBreak (c : Nat) (h : isLineBreak c = true) : isSpace c = true := by
+  simp only [isLineBreak, Bool.or_eq_true, decide_eq_true_eq] at h
+  simp only [isSpace, Bool.or_eq_true, Bool.and_eq_true, decide_eq_true_eq]
+  omega
+
+/-- The first line produced by `splitlines` starts with what was already collected. -/
+theorem splitLinesAux_head (cur t : Text) (h : cur ≠ []) :
+    ∃ r ls, splitLinesAux cur t = (cur.reverse ++ r) :: ls := by
+  fun_induction splitLinesAux cur t with
+  | case1 cur he => cases cur <;> simp_all
+  | case2 cur he => exact ⟨[], [], by simp⟩
+  | case3 cur cs ih => exact ⟨[13, 10], _, rfl⟩
+  | case4 cur c cs hne hlb ih => exact ⟨[c], _, rfl⟩
+  | case5 cur c cs hne hlb ih =>
+    obtain ⟨r, ls, e⟩ := ih (by simp)
+    exact ⟨c :: r, ls, by rw [e]; simp⟩
+
+/-- `textwrap.indent` puts the prefix in front of a text that starts with a non-space character. -/
+theorem indent_head (ind : Text) (c : Nat) (cs : Text) (hc : isSpace c = false) :
+    ∃ rest, indent ind (c :: cs) = ind ++ c :: rest := by
+  have hlb : isLineBreak c = false := by
+    cases h : isLineBreak c with
+    | false => rfl
+    | true => rw [isSpace_of_isLineBreak c h] at hc; cases hc
+  have h13 : c ≠ 13 := by intro h; subst h; simp [isSpace] at hc
+  obtain ⟨r, ls, e⟩ := splitLinesAux_head [c] cs (by simp)
+  have hsplit : splitLines (c :: cs) = ([c] ++ r) :: ls := by
+    unfold splitLines
+    rw [splitLinesAux.eq_3 _ _ _ (by intro cs' h; exact absurd h h13)]
+    simp only [hlb, Bool.false_eq_true, if_false]
+    simpa using e
+  refine ⟨r ++ (ls.map fun line => if line.all isSpace then line else ind ++ line).flatten, ?_⟩
+  unfold indent
+  rw [hsplit]
+  simp [hc]
+
+end AasVerif.Lineno
